@@ -166,13 +166,28 @@ theorem carveNSem_of_carveN (asg : List String) (e : CExpr) : InclN asg e := by
     | cons p ps =>
       rw [CarveNs] at h; rw [CarveNsSem]
       simp only [Bool.and_eq_true] at h ⊢
-      exact ⟨⟨⟨iha h.1.1.1, h.1.1.2⟩, onA_mono h.1.2 (fun _ => castSafeSem_of_castSafe)⟩, ihas ps h.2⟩
+      exact ⟨⟨⟨iha h.1.1.1, h.1.1.2⟩, onA_mono h.1.2 (fun _ h' => by rw [castSafeSem_of_castSafe h']; rfl)⟩, ihas ps h.2⟩
 
 theorem carveESem_of_carveE {asg : List String} {e : CExpr} (h : CarveE asg e = true) : CarveESem asg e = true := by
   unfold CarveE at h
   unfold CarveESem
   simp only [Bool.and_eq_true] at h ⊢
   exact ⟨carveNSem_of_carveN asg e h.1, h.2⟩
+
+/-- the condition-position carve-out contains what `if`/`for` asked of a condition before it was introduced: a
+    value-carved expression whose repaired compilation is `condOK` -/
+theorem carveCSem_of_carveESem {env : CEnv} {e : CExpr} (h : CarveESem env.assigned e = true)
+    (hok : (match compileExpr (fixedEnv env) e with | .ok cc => condOK cc | .error _ => true) = true) :
+    CarveCSem env e = true := by
+  unfold CarveESem at h
+  unfold CarveCSem
+  simp only [Bool.and_eq_true] at h ⊢
+  exact ⟨h.1, Bool.or_eq_true _ _ ▸ Or.inr hok⟩
+
+theorem carveCSem_of_carveE {env : CEnv} {e : CExpr} (h : CarveE env.assigned e = true)
+    (hok : (match compileExpr (fixedEnv env) e with | .ok cc => condOK cc | .error _ => true) = true) :
+    CarveCSem env e = true :=
+  carveCSem_of_carveESem (carveESem_of_carveE h) hok
 
 theorem assignCarveSem_of {op : String} {cd ce : CE} (h : assignCarve op cd ce = true) : assignCarveSem op cd ce = true := by
   unfold assignCarve at h
@@ -210,7 +225,7 @@ theorem carveSSem_of_carveS (env : CEnv) :
   | .assign lhs op e, h => by
       rw [CarveS] at h; rw [CarveSSem]
       simp only [Bool.and_eq_true] at h ⊢
-      refine ⟨⟨⟨h.1.1.1, carveESem_of_carveE h.1.1.2⟩, carveESem_of_carveE h.1.2⟩, ?_⟩
+      refine ⟨⟨⟨h.1.1.1, by unfold lhsCarveSem; rw [carveESem_of_carveE h.1.1.2]; rfl⟩, carveESem_of_carveE h.1.2⟩, ?_⟩
       have h2 := h.2
       split at h2
       · next cd ce hcd hce => rw [hcd, hce]; exact assignCarveSem_of h2
@@ -235,15 +250,15 @@ theorem carveSSem_of_carveS (env : CEnv) :
   | .ite x t none, h => by
       rw [CarveS] at h; rw [CarveSSem]
       simp only [Bool.and_eq_true] at h ⊢
-      exact ⟨⟨⟨carveESem_of_carveE h.1.1.1, h.1.1.2⟩, carveSsSem_of_carveSs env t h.1.2⟩, trivial⟩
+      exact ⟨⟨carveCSem_of_carveE h.1.1.1 h.1.1.2, carveSsSem_of_carveSs env t h.1.2⟩, trivial⟩
   | .ite x t (some e), h => by
       rw [CarveS] at h; rw [CarveSSem]
       simp only [Bool.and_eq_true] at h ⊢
-      exact ⟨⟨⟨carveESem_of_carveE h.1.1.1, h.1.1.2⟩, carveSsSem_of_carveSs env t h.1.2⟩, carveSsSem_of_carveSs env e h.2⟩
+      exact ⟨⟨carveCSem_of_carveE h.1.1.1 h.1.1.2, carveSsSem_of_carveSs env t h.1.2⟩, carveSsSem_of_carveSs env e h.2⟩
   | .for_ v x step b, h => by
       rw [CarveS] at h; rw [CarveSSem]
       simp only [Bool.and_eq_true] at h ⊢
-      exact ⟨⟨⟨h.1.1.1, carveESem_of_carveE h.1.1.2⟩, h.1.2⟩, carveSsSem_of_carveSs env b h.2⟩
+      exact ⟨⟨h.1.1.1, carveCSem_of_carveE h.1.1.2 h.1.2⟩, carveSsSem_of_carveSs env b h.2⟩
   | .jump e, h => by
       rw [CarveS] at h; rw [CarveSSem]
       simp only [Bool.and_eq_true] at h ⊢
@@ -272,6 +287,144 @@ theorem carveSsSem_of_carveSs (env : CEnv) :
       simp only [Bool.and_eq_true] at h ⊢
       exact ⟨carveSSem_of_carveS env s h.1, carveSsSem_of_carveSs env ss h.2⟩
 end
+
+/-! ## the low-bits flag only adds programs -/
+
+def MonoN (asg : List String) (e : CExpr) : Prop := CarveNSem asg e = true → CarveNSem asg e true = true
+def MonoNs (asg : List String) (args : List CExpr) : Prop :=
+  ∀ params low, CarveNsSem asg args params = true → CarveNsSem asg args params true low = true
+
+theorem carveNSem_mono_lb (asg : List String) (e : CExpr) : MonoN asg e := by
+  refine CExpr.rec (motive_1 := MonoN asg) (motive_2 := MonoNs asg)
+    ?reg ?imm ?lit ?var ?cast ?un ?not ?bin ?shift ?cmp ?log ?tern ?macroc ?load ?post ?call ?stmtexpr ?seqexpr ?callx ?xmacro ?nil ?cons e
+  case reg => intro n k t h; rw [CarveNSem] at h ⊢; exact h
+  case imm => intro l s _; rw [CarveNSem]
+  case lit => intro v hx s h; rw [CarveNSem] at h ⊢; exact h
+  case var => intro n t _; rw [CarveNSem]
+  case cast =>
+    intro t e ih h
+    rw [CarveNSem] at h ⊢
+    simp only [Bool.and_eq_true] at h ⊢
+    exact ⟨⟨ih h.1.1, h.1.2⟩, h.2⟩
+  case un =>
+    intro op e ih h
+    rw [CarveNSem] at h ⊢
+    simp only [Bool.and_eq_true] at h ⊢
+    exact ⟨⟨ih h.1.1, h.1.2⟩, h.2⟩
+  case not =>
+    intro e ih h
+    rw [CarveNSem] at h ⊢
+    simp only [Bool.and_eq_true] at h ⊢
+    exact ⟨ih h.1, h.2⟩
+  case bin =>
+    intro op a b iha ihb h
+    rw [CarveNSem] at h ⊢
+    simp only [Bool.and_eq_true] at h ⊢
+    exact ⟨⟨⟨⟨iha h.1.1.1.1, ihb h.1.1.1.2⟩, h.1.1.2⟩, h.1.2⟩, h.2⟩
+  case shift =>
+    intro op a b iha ihb h
+    rw [CarveNSem] at h ⊢
+    simp only [Bool.and_eq_true] at h ⊢
+    exact ⟨⟨⟨iha h.1.1.1, ihb h.1.1.2⟩, h.1.2⟩, h.2⟩
+  case cmp =>
+    intro op a b iha ihb h
+    rw [CarveNSem] at h ⊢
+    simp only [Bool.and_eq_true] at h ⊢
+    exact ⟨⟨⟨⟨iha h.1.1.1.1, ihb h.1.1.1.2⟩, h.1.1.2⟩, h.1.2⟩, h.2⟩
+  case log =>
+    intro op a b iha ihb h
+    rw [CarveNSem] at h ⊢
+    simp only [Bool.and_eq_true] at h ⊢
+    exact ⟨⟨iha h.1.1, ihb h.1.2⟩, h.2⟩
+  case tern =>
+    intro x a b ihx iha ihb h
+    rw [CarveNSem] at h ⊢
+    simp only [Bool.and_eq_true] at h ⊢
+    exact ⟨⟨⟨⟨⟨ihx h.1.1.1.1.1, iha h.1.1.1.1.2⟩, ihb h.1.1.1.2⟩, h.1.1.2⟩, h.1.2⟩, h.2⟩
+  case macroc =>
+    intro name args ret params ih h
+    rw [CarveNSem] at h ⊢
+    exact ih params _ h
+  case load => intro s w t h; rw [CarveNSem] at h ⊢; exact h
+  case post => intro v t op h; rw [CarveNSem] at h; cases h
+  case call => intro n a r p _ h; rw [CarveNSem] at h; cases h
+  case stmtexpr => intro t v e _ h; rw [CarveNSem] at h; cases h
+  case seqexpr => intro n x a p v _ _ h; rw [CarveNSem] at h; cases h
+  case callx => intro n x a r p _ h; rw [CarveNSem] at h; cases h
+  case xmacro => intro n x r h; rw [CarveNSem] at h; cases h
+  case nil => intro params low _; rw [CarveNsSem]
+  case cons =>
+    intro a as iha ihas params low h
+    cases params with
+    | nil => rw [CarveNsSem]
+    | cons p ps =>
+      rw [CarveNsSem] at h ⊢
+      simp only [Bool.and_eq_true] at h ⊢
+      exact ⟨⟨⟨iha h.1.1.1, h.1.1.2⟩, onA_mono h.1.2 (fun _ h' => by
+        simp only [lowSafe, Bool.or_false] at h'; rw [h']; rfl)⟩, ihas ps none h.2⟩
+
+theorem carveESem_mono_lb {asg : List String} {e : CExpr} (h : CarveESem asg e = true) : CarveESem asg e true = true := by
+  unfold CarveESem at h ⊢
+  simp only [Bool.and_eq_true] at h ⊢
+  exact ⟨carveNSem_mono_lb asg e h.1, h.2⟩
+
+theorem carveCSem_mono_lb {env : CEnv} {e : CExpr} (h : CarveCSem env e = true) : CarveCSem env e true = true := by
+  unfold CarveCSem at h ⊢
+  simp only [Bool.and_eq_true] at h ⊢
+  exact ⟨carveNSem_mono_lb _ e h.1, h.2⟩
+
+mutual
+theorem carveSSem_mono_lb (env : CEnv) : (s : CStmt) → CarveSSem env s = true → CarveSSem env s true = true
+  | .decl _ _ none, _ => by rw [CarveSSem]
+  | .decl t n (some e), h => by
+      rw [CarveSSem] at h ⊢
+      simp only [Bool.and_eq_true] at h ⊢
+      exact ⟨carveESem_mono_lb h.1, h.2⟩
+  | .assign lhs op e, h => by
+      rw [CarveSSem] at h ⊢
+      simp only [Bool.and_eq_true] at h ⊢
+      exact ⟨⟨h.1.1, carveESem_mono_lb h.1.2⟩, h.2⟩
+  | .chain l1 l2 op2 e, h => by rw [CarveSSem] at h ⊢; exact h
+  | .store w e, h => by
+      rw [CarveSSem] at h ⊢
+      simp only [Bool.and_eq_true] at h ⊢
+      exact ⟨carveESem_mono_lb h.1, h.2⟩
+  | .ite x t none, h => by
+      rw [CarveSSem] at h ⊢
+      simp only [Bool.and_eq_true] at h ⊢
+      exact ⟨⟨carveCSem_mono_lb h.1.1, carveSsSem_mono_lb env t h.1.2⟩, trivial⟩
+  | .ite x t (some e), h => by
+      rw [CarveSSem] at h ⊢
+      simp only [Bool.and_eq_true] at h ⊢
+      exact ⟨⟨carveCSem_mono_lb h.1.1, carveSsSem_mono_lb env t h.1.2⟩, carveSsSem_mono_lb env e h.2⟩
+  | .for_ v x step b, h => by
+      rw [CarveSSem] at h ⊢
+      simp only [Bool.and_eq_true] at h ⊢
+      exact ⟨⟨h.1.1, carveCSem_mono_lb h.1.2⟩, carveSsSem_mono_lb env b h.2⟩
+  | .jump e, h => by
+      rw [CarveSSem] at h ⊢
+      simp only [Bool.and_eq_true] at h ⊢
+      exact ⟨carveESem_mono_lb h.1, h.2⟩
+  | .skip _, _ => by rw [CarveSSem]
+  | .exprstmt e, h => by
+      rw [CarveSSem] at h ⊢
+      exact carveESem_mono_lb h
+  | .ret _, _ => by rw [CarveSSem]
+  | .vcall _ _ _ _, _ => by rw [CarveSSem]
+theorem carveSsSem_mono_lb (env : CEnv) : (ss : List CStmt) → CarveSsSem env ss = true → CarveSsSem env ss true = true
+  | [], _ => by rw [CarveSsSem]
+  | s :: ss, h => by
+      rw [CarveSsSem] at h ⊢
+      simp only [Bool.and_eq_true] at h ⊢
+      exact ⟨carveSSem_mono_lb env s h.1, carveSsSem_mono_lb env ss h.2⟩
+end
+
+/-- the certificate with the low-bits flag contains the one without -/
+theorem certifiedSemX_of_certifiedSem {prog : List CStmt} (h : certifiedSem prog = true) : certifiedSemX prog = true := by
+  simp only [certifiedSem, CarveProgSem, Bool.and_eq_true] at h
+  obtain ⟨⟨⟨hrest, hcarve⟩, hfree⟩, hsame⟩ := h
+  simp only [certifiedSemX, CarveProgSem, Bool.and_eq_true]
+  exact ⟨⟨⟨hrest, carveSsSem_mono_lb _ prog hcarve⟩, hfree⟩, hsame⟩
 
 /-- **the semantic certificate extends the syntactic one** -/
 theorem certifiedSem_of_certified {prog : List CStmt} (h : certified prog = true) : certifiedSem prog = true := by
